@@ -445,6 +445,49 @@ def rrset_gate_oracle(req, ans):
     return None
 
 
+def client_c13_oracle(req, ans):
+    """C13 on the implementation alone: the strategy decides which transports are used, and a truncated
+    (TC=1) accepted UDP answer — whatever its RCODE — is re-asked over TCP exactly when TCP is allowed.
+    The generator puts the one acceptable datagram last in the reply to the first query."""
+    c = client_oracle(req, ans)
+    if c:
+        return c
+    if ans == "bad-request":
+        return None
+    cfg, qs = client_req(req)
+    strat = cfg.get("strat")
+    for q, g in zip(qs, ans.split(" | ")):
+        f = client_fields(g)
+        res = f.get("res", "")
+        nudp = int(f.get("nudp", "0"))
+        ntcp = int(f.get("ntcp", "0"))
+        first = q.get("udp", "-").split(";")[0]
+        last = first.split(",")[-1]
+        if not last.startswith("IIII") or len(last) < 4 + 20:
+            continue
+        flags = int(last[4:8], 16)
+        tc = bool(flags & 0x0200)
+        if strat == "tcp":
+            if nudp != 0:
+                return "strategy Tcp sent %d datagram(s)" % nudp
+            continue
+        if strat == "notcp":
+            if ntcp != 0:
+                return "strategy NoTcp opened %d TCP connection(s)" % ntcp
+            if res.startswith("ok:") and int(res.split(":")[2][4:8], 16) != flags:
+                return "strategy NoTcp did not return the accepted UDP answer as is"
+            continue
+        if strat == "udp" and res.startswith("ok:"):
+            got = int(res.split(":")[2][4:8], 16)
+            if tc and ntcp == 0:
+                return ("a truncated UDP answer (flags %04x, RCODE %d) was not re-asked over TCP" % (flags, flags & 15))
+            if tc and got & 0x0200 and ntcp >= 1:
+                pass   # the TCP answer itself may be truncated in other streams; here it never is
+            if not tc and ntcp != 0:
+                return "an untruncated UDP answer was followed by %d TCP connection(s)" % ntcp
+    return None
+
+
 for _name, _n, _par in [("c11", 480, 8), ("c12", 400, 8), ("c13", 240, 8), ("c14", 400, 8), ("c15", 240, 6), ("c16", 160, 6)]:
     STREAMS[_name] = dict(
         kinds=["client"], quick=_n, thorough=_n * 12, parallel=_par, case_limit_ms=30000,
@@ -957,7 +1000,7 @@ PROPS = {
                    "with Udp a TC answer leads to exactly one TCP exchange whose result is returned. udp_first/tcp_allowed are "
                    "translated from clients/std/client_impl.rs and templates/async_client_impl.rs on every run.",
         level_note="Trusted: Lean kernel; tools/extract.py; the scripted server's trace (datagrams seen, connections accepted).",
-        streams=[dict(name="c13")],
+        streams=[dict(name="c13", impl_oracle=client_c13_oracle)],
         explanation="C13: strategy_table, tcp_only_sends_no_datagram, notcp_never_connects, udp_fallback.",
     ),
     "C14": dict(
